@@ -446,6 +446,11 @@ def check_c15(out, tier):
     out.add_l1("EndpointCache/MC_C15.cfg", r)
     for inv in r["violated"]:
         out.violation("L1.%s" % inv, {"model": "EndpointCache"}, r["out"][-1500:])
+    # unbounded in the number of requests: one step from every state of the inductive invariant (spec/MC_EndpointInd.tla)
+    r = tlc.check_model("MC_EndpointInd", "MC_C15_inductive.cfg", workers=8, timeout=900)
+    out.add_l1("MC_EndpointInd/MC_C15_inductive.cfg", r)
+    for inv in r["violated"]:
+        out.violation("L1.inductive.%s" % inv, {"model": "MC_EndpointInd"}, r["out"][-1500:])
     k = pipeline.SIZES[tier]
     payloads, groups = [], []
     for i in range(90 * k):
